@@ -3,8 +3,8 @@ from __future__ import annotations
 
 import ast
 
-from ..astq import Inliner, U, call_name, local_defs, statements, store_targets
-from ..cfg import CFG
+from ..astq import Inliner, U, kwarg, call_name, local_defs, statements, store_targets
+from ..cfg import CFG, header_walk
 from ..index import AnalysisError, walk_no_nested
 from ..selftest import V
 from ._samplers import branch_paths_pass, branch_reaches, negation_of, sample_functions
@@ -212,14 +212,46 @@ def r3_revert_structure(ctx, rid="C02.R3", title="structure of State.revert (ful
     kname, oldname = (U(lp.target.elts[0]), U(lp.target.elts[1])) if isinstance(lp.target, ast.Tuple) else (None, None)
     ctx.ok(rid, f, lp, "partial revert iterates the whole snapshot")
     # None handling
-    none_ok = False
+    # an entry is reset exactly when the snapshot OR the current value is unset: truth table of the tests guarding `self._values[k] = None`
+    defs = local_defs(f.node)
+    cur_names = {n for n, vs in defs.items() if len(vs) == 1 and vs[0] is not None and U(vs[0]) == f"self._values[{kname}]"} | {f"self._values[{kname}]"}
+
+    def tt(e, a, b):
+        """value of a test over the atoms a = 'snapshot is None', b = 'current is None' (None: not such a test)"""
+        if isinstance(e, ast.BoolOp):
+            vs = [tt(v, a, b) for v in e.values]
+            if any(v is None for v in vs):
+                return None
+            return all(vs) if isinstance(e.op, ast.And) else any(vs)
+        if isinstance(e, ast.UnaryOp) and isinstance(e.op, ast.Not):
+            v = tt(e.operand, a, b)
+            return None if v is None else not v
+        if isinstance(e, ast.Compare) and len(e.ops) == 1 and isinstance(e.ops[0], (ast.Is, ast.IsNot)) and U(e.comparators[0]) == "None":
+            who = U(e.left)
+            v = a if who == oldname else b if who in cur_names else None
+            return None if v is None else (v if isinstance(e.ops[0], ast.Is) else not v)
+        return None
+
+    resets, undecided = [], []
     for s in ast.walk(lp):
-        if isinstance(s, ast.If) and "is None" in U(s.test) and oldname in U(s.test):
-            for b in s.body:
-                if isinstance(b, ast.Assign) and U(b.targets[0]) == f"self._values[{kname}]" and U(b.value) == "None":
-                    none_ok = True
-    ctx.check(none_ok, rid, f, lp, "entry unset on either side is left unset (recomputed lazily)",
-              "partial revert does not reset entries that are unset on either side", construct="None handling in partial revert")
+        if isinstance(s, ast.If):
+            for side, blk in ((True, s.body), (False, s.orelse)):
+                if any(isinstance(b_, ast.Assign) and U(b_.targets[0]) == f"self._values[{kname}]" and U(b_.value) == "None" for b_ in blk):
+                    if tt(s.test, False, False) is None:
+                        undecided.append(s)
+                    resets.append((s, side))
+    if undecided:
+        ctx.unknown(rid, f, undecided[0], f"unrecognised test `{U(undecided[0].test)[:80]}` in front of the reset of an entry in the partial revert", construct="None handling in partial revert")
+    else:
+        table = {(a, b): any(tt(s.test, a, b) == side for s, side in resets) for a in (False, True) for b in (False, True)}
+        want = {(a, b): a or b for a in (False, True) for b in (False, True)}
+        missing = [k for k in want if want[k] and not table[k]]
+        extra = [k for k in want if table[k] and not want[k]]
+        name = {(True, False): "snapshot unset / current set", (False, True): "snapshot set / current unset", (True, True): "both unset", (False, False): "both set"}
+        ctx.check(not missing and not extra, rid, f, resets[0][0] if resets else lp, "an entry is reset exactly when it is unset on either side (recomputed lazily)",
+                  ("partial revert does not reset entries in the case " + ", ".join(name[k] for k in missing) + ": the blend then reads an unset value or the proposal's value survives"
+                   if missing else "partial revert wipes entries that are set on both sides: the reverted value of a root variable is lost"),
+                  construct="None handling in partial revert")
     after = [n for n in cfg.nodes(lambda s: isinstance(s, ast.Assign) and U(s.targets[0]) == "self._last_fork" and U(s.value) == "None")
              if cfg.reachable(loops[0], n) and n not in [cfg.node_of(c) for c in clr]]
     ctx.check(bool(after) and cfg.all_paths_pass(loops[0], after), rid, f, cfg.stmt[after[0]] if after else lp,
@@ -333,6 +365,65 @@ def r4_selection(ctx):
             ctx.unknown("C02.R4", f, st, "unrecognised idiom for the per-individual restore")
     if n == 0:
         ctx.violation("C02.R4", f, lp, "partial revert never restores a value")
+    # alignment of the mask: the individuals are on the leading axis, so the (n_individuals,) mask gets exactly old.ndim - mask.ndim trailing axes
+    rb = [a.arg for a in f.node.args.args + f.node.args.kwonlyargs if a.arg == "right_broadcasting"]
+    if not rb:
+        return
+
+    def ndim_val(e, o, t, depth=0):
+        if depth > 6:
+            return None
+        if isinstance(e, ast.Constant) and isinstance(e.value, int) and not isinstance(e.value, bool):
+            return e.value
+        if isinstance(e, ast.Name):
+            vs = defs.get(e.id)
+            return ndim_val(vs[0], o, t, depth + 1) if vs and len(vs) == 1 and vs[0] is not None else None
+        what = e.value if isinstance(e, ast.Attribute) and e.attr == "ndim" else e.func.value if isinstance(e, ast.Call) and isinstance(e.func, ast.Attribute) and e.func.attr == "dim" and not e.args else None
+        if what is not None:
+            return o if side(what) is not None else t if polarity(what) is not None else None
+        if isinstance(e, ast.BinOp) and isinstance(e.op, (ast.Add, ast.Sub, ast.Mult)):
+            a, b = ndim_val(e.left, o, t, depth + 1), ndim_val(e.right, o, t, depth + 1)
+            if a is None or b is None:
+                return None
+            return a + b if isinstance(e.op, ast.Add) else a - b if isinstance(e.op, ast.Sub) else a * b
+        if isinstance(e, ast.Call) and U(e.func) in ("max", "min") and len(e.args) >= 2 and not e.keywords:
+            vs = [ndim_val(a, o, t, depth + 1) for a in e.args]
+            return None if any(v is None for v in vs) else (max if U(e.func) == "max" else min)(vs)
+        return None
+
+    cfg_ = CFG(f.node)
+    aligned, reported = [], False
+    for nid, st in cfg_.stmt.items():
+        if st is None or not isinstance(st, ast.Assign):
+            continue
+        c = st.value
+        if not (isinstance(c, ast.Call) and U(c.func) == "unsqueeze_right" and c.args and polarity(c.args[0]) is not None):
+            continue
+        guards = [(U(cfg_.stmt[h].test), lab) for h, lab in cfg_.if_guards(nid)]
+        nd = kwarg(c, "ndim") or (c.args[1] if len(c.args) > 1 else None)
+        if nd is None:
+            ctx.unknown("C02.R4", f, st, "unsqueeze_right without its number of axes", construct="mask alignment")
+            reported = True
+            continue
+        grid = [(o, t, ndim_val(nd, o, t)) for o in range(0, 5) for t in range(0, o + 1)]
+        if any(v is None for _, _, v in grid):
+            ctx.unknown("C02.R4", f, st, f"cannot evaluate the number of trailing axes `{U(nd)[:60]}` given to the mask", construct="mask alignment")
+            reported = True
+            continue
+        bad = [(o, t, v) for o, t, v in grid if v != o - t]
+        if bad:
+            o, t, v = bad[0]
+            ctx.violation("C02.R4", f, st, f"the mask gets `{U(nd)[:60]}` trailing axes: {v} instead of {o - t} for a {o}-dimensional value and a {t}-dimensional mask - the selection then broadcasts "
+                          "to another shape or lines the mask up with another axis than the individuals", construct="mask alignment")
+            reported = True
+            continue
+        if (rb[0], True) in guards and len(guards) >= 1:
+            aligned.append(st)
+    if reported:
+        return
+    ctx.check(bool(aligned), "C02.R4", f, aligned[0] if aligned else lp, "with right_broadcasting the mask is extended by old.ndim - mask.ndim trailing axes (individuals stay on the leading axis)",
+              "with right_broadcasting (the default, used by the samplers) the mask is no longer extended on the right: a (n_individuals,) mask is lined up with the LAST axis of the values",
+              construct="mask alignment")
 
 
 def r5_reads_before_partial_revert(ctx):
@@ -402,6 +493,15 @@ def r7_auto_fork_scoped(ctx):
             for st in t.finalbody:
                 if isinstance(st, ast.Assign) and U(st.targets[0]) == "self.auto_fork_type" and U(st.value) in saved:
                     ok = True
+    # the block runs under the requested mode: `self.auto_fork_type = <the parameter>` on every path to the yield
+    cfgf = CFG(f.node)
+    par = [a.arg for a in f.node.args.args[1:]]
+    sets = [n for n, st in cfgf.stmt.items() if isinstance(st, ast.Assign) and U(st.targets[0]) == "self.auto_fork_type" and par and U(st.value) == par[0]]
+    yn = [n for n, st in cfgf.stmt.items() if st is not None and any(y is ys[0] for y in header_walk(st))]
+    ok_set = bool(sets) and bool(yn) and any(cfgf.dominates(s_, yn[0]) for s_ in sets)
+    ctx.check(ok_set, "C02.R7", f, cfgf.stmt[sets[0]] if sets else ys[0], "the requested mode is in force inside the block",
+              "State.auto_fork does not (always) switch to the requested mode before yielding: the samplers' proposals inside `with state.auto_fork(...)` are not snapshotted, "
+              "so a rejection has nothing (or a stale snapshot) to revert to", construct="mode set before the yield")
     ctx.check(ok, "C02.R7", f, ys[0], "the previous mode is saved before and restored in `finally` around the yield",
               "State.auto_fork does not restore the previous forking mode in a `finally`: an exception escaping `with state.auto_fork(None)` leaves snapshotting off, "
               "and later rejected proposals are not (or wrongly) reverted")
